@@ -109,9 +109,12 @@ Variable qeqb : Q -> Q -> bool.
 Variable exec : DB -> Q -> R.
 Variable apply : DB -> W -> DB.
 Variable raw_clears : bool.            (* false = the code as it is; true = raw SQL writes would clear query_results *)
+Variable aggr_flushes : bool.          (* false = the code as it is: Query._aggregate looks the cache up BEFORE
+                                          prepare_connection_for_query_execution had a chance to flush *)
 
 Inductive sop : Type :=
-| SQuery (q : Q)                       (* Query._actual_fetch / _aggregate                          *)
+| SQuery (q : Q)                       (* Query._actual_fetch                                        *)
+| SAggregate (q : Q)                   (* Query._aggregate: count / sum / min / max / avg / group_concat *)
 | SModify (w : W)                      (* attribute assignment, create, obj.delete(): cache.modified *)
 | SFlush | SCommit
 | SBulkDelete (w : W)                  (* Query.delete(bulk=True)                                    *)
@@ -134,6 +137,13 @@ Definition sstep (s : sess) (o : sop) : sess * option R :=
       | Some r => (s, Some r)
       | None => let r := exec (s_db s) q in (mksess (s_db s) [] ((q, r) :: s_cache s), Some r)
       end
+  | SAggregate q =>
+      let s0 := if aggr_flushes then sflush s else s in
+      match lookup _ _ qeqb (s_cache s0) q with
+      | Some r => (s0, Some r)            (* cache.query_results[query_key] *)
+      | None => let s1 := sflush s0 in    (* _exec_sql -> prepare_connection_for_query_execution -> flush *)
+                let r := exec (s_db s1) q in (mksess (s_db s1) [] ((q, r) :: s_cache s1), Some r)
+      end
   | SModify w => (mksess (s_db s) (s_pending s ++ [w]) (s_cache s), None)
   | SFlush => (sflush s, None)
   | SCommit => let s := sflush s in (mksess (s_db s) [] [], None)
@@ -147,7 +157,7 @@ Fixpoint srun (s : sess) (h : list sop) : list (option R) :=
 (* the same history with a cold result cache: every query is executed against the current database state *)
 Definition cold_step (db : DB) (pending : list W) (o : sop) : DB * list W * option R :=
   match o with
-  | SQuery q => let db' := fold_left apply pending db in (db', [], Some (exec db' q))
+  | SQuery q | SAggregate q => let db' := fold_left apply pending db in (db', [], Some (exec db' q))
   | SModify w => (db, pending ++ [w], None)
   | SFlush | SCommit => (fold_left apply pending db, [], None)
   | SBulkDelete w | SRaw w => (apply (fold_left apply pending db) w, [], None)
@@ -156,4 +166,5 @@ Fixpoint cold_run (db : DB) (pending : list W) (h : list sop) : list (option R) 
   match h with [] => [] | o :: r => let '(db', p', a) := cold_step db pending o in a :: cold_run db' p' r end.
 
 Definition is_raw (o : sop) : bool := match o with SRaw _ => true | _ => false end.
+Definition is_aggregate (o : sop) : bool := match o with SAggregate _ => true | _ => false end.
 End Session.
